@@ -28,11 +28,13 @@ pub(crate) fn value_to_string<O: OffsetSizeTrait>(
     for i in 0..array.len() {
         match nulls.is_some_and(|x| x.is_null(i)) {
             true => builder.append_null(),
-            false => {
-                formatter.value(i).write(&mut builder)?;
+            false => match formatter.value(i).write(&mut builder) {
                 // tell the builder the row is finished
-                builder.append_value("");
-            }
+                Ok(()) => builder.append_value(""),
+                // a value without a textual form is a failed cast of that value
+                Err(_) if options.safe => builder.append_null(),
+                Err(e) => return Err(e),
+            },
         }
     }
     Ok(Arc::new(builder.finish()))
@@ -54,8 +56,12 @@ pub(crate) fn value_to_string_view(
             false => {
                 // write to buffer first and then copy into target array
                 buffer.clear();
-                formatter.value(i).write(&mut buffer)?;
-                builder.append_value(&buffer)
+                match formatter.value(i).write(&mut buffer) {
+                    Ok(()) => builder.append_value(&buffer),
+                    // a value without a textual form is a failed cast of that value
+                    Err(_) if options.safe => builder.append_null(),
+                    Err(e) => return Err(e),
+                }
             }
         }
     }
